@@ -3,6 +3,7 @@ import PW.Proofs.ApplyVector
 import PW.Proofs.LevelIndep
 import PW.Props.Tables
 import PW.Proofs.Adequacy
+import PW.Props.Strings
 import PW.Proofs.Basic
 import PW.Spec
 /-!
@@ -72,6 +73,22 @@ theorem renormalise_table : PW.Generated.opTable = PW.TablesSpec.expectedOps :=
 theorem hardcoded_strings : PW.Generated.hardcodedEinsum = PW.TablesSpec.expectedHardcoded :=
   PW.Props.Tables.hardcoded_einsum_as_expected
 
+/-- the einsum literals of the own-state and envelope `apply_operation` bodies are the plans that
+`einsum_constructor` generates for one / two members (up to relabelling and the `[0,2,1,3]`
+transposition): their semantics is covered by the two theorems above -/
+theorem hardcoded_apply_strings_are_generated_plans :
+    (PW.Props.Strings.plansOf "photon_weave/state/fock.py" "apply_operation").map canon
+        = [canon (applyOperatorVector 1 [0]), canon (applyOperatorMatrix 1 [0])] ∧
+    canon ((PW.Props.Strings.plansOf "photon_weave/state/envelope.py" "apply_operation").getD 0 ([], []))
+        = canon (applyOperatorVector 2 [0]) ∧
+    canon ((PW.Props.Strings.plansOf "photon_weave/state/envelope.py" "apply_operation").getD 1 ([], []))
+        = canon (PW.Props.Strings.permuteAxes (applyOperatorMatrix 2 [0]) 1 [0, 2, 1, 3]) :=
+  ⟨PW.Props.Strings.own_state_vector_string, PW.Props.Strings.envelope_vector_string,
+   PW.Props.Strings.envelope_matrix_string⟩
+
+theorem hardcoded_plans_table : PW.Generated.hardcodedPlans = PW.TablesSpec.expectedPlans :=
+  PW.Props.Tables.hardcoded_plans_as_expected
+
 end PW.Props.C01
 
 #print axioms PW.Props.C01.apply_operator_matrix_is_applyOn
@@ -81,3 +98,5 @@ end PW.Props.C01
 #print axioms PW.Props.C01.unitary_operation_preserves_trace
 #print axioms PW.Props.C01.renormalise_table
 #print axioms PW.Props.C01.hardcoded_strings
+#print axioms PW.Props.C01.hardcoded_apply_strings_are_generated_plans
+#print axioms PW.Props.C01.hardcoded_plans_table
